@@ -94,10 +94,11 @@ func (o *Output) WriteTo(buf io.Writer) (n int64, err error) {
 		return
 	}
 
-	if err = binary.Write(buf, binary.LittleEndian, o.Value); err != nil {
+	j, err := writeLE(buf, o.Value, 8)
+	n += int64(j)
+	if err != nil {
 		return
 	}
-	n += int64(binary.Size(o.Value))
 
 	scriptLen := varint.VarInt(len(o.Script))
 
@@ -107,7 +108,7 @@ func (o *Output) WriteTo(buf io.Writer) (n int64, err error) {
 		return
 	}
 
-	j, err := buf.Write(o.Script)
+	j, err = buf.Write(o.Script)
 	n += int64(j)
 	if err != nil {
 		return
